@@ -63,7 +63,8 @@ def handle (args : List String) (_impl : String) : String × String :=
     | "inv" => let a := u bits as; let x := parseHex as
         (outO (Ruint.Gen.uint_inv_ring (nlimbs bits + 1) bits (nlimbs bits) a), invSpec bits x)
     | "prod" | "prodref" =>
-        let xs := if as = "-" then [] else (as.splitOn ",").map parseHex
+        -- `N` = a `None` of a non-fused iterator: the items before the first one count
+        let xs := if as = "-" then [] else ((as.splitOn ",").takeWhile (· ≠ "N")).map parseHex
         (out (product bits (xs.map (toLimbs (nlimbs bits)))), toHex (xs.foldl (· * ·) 1 % m))
     | _ => ("bad-op", "bad-op")
   | _ => ("bad-op", "bad-op")
